@@ -163,6 +163,9 @@ def run(ctx):
         # the server never indexes a code map with an editor-supplied line through a panicking accessor
         from rules.C05 import r5_line_accessors
         r5_line_accessors(ctx, F, rule="C19.R3", crates=("starlark_syntax", "starlark", "starlark_lsp", "starlark_bin"))
+    elif getattr(ctx, "lenient", False):
+        # the secondary configurations of the thorough tier (pagable, nodebug) extract the interpreter crate only
+        ctx.note("C19.R2-R5 not evaluated under configuration `%s`: it does not contain the starlark_lsp crate" % ctx.config)
     else:
         ctx.bad("C19.R2", "anchor:starlark_lsp", "anchor-missing: the extraction does not contain the starlark_lsp crate")
     n = 0
